@@ -21,6 +21,21 @@ CLAIMED = {
     ),
 }
 
+CLAIMED["C04"] = dict(
+    text="Lean theorems C04_requests / C04_dedup_irrelevant / C04_push_xor / C04_push_and / C04_build: for EVERY sequence of builder "
+         "requests (xor/and/not/or/eq/mux/adder over earlier results, inputs and constants, any length), every input and both cache "
+         "settings, the circuit produced by the model of CircuitBuilder (constant folding, gate cache, all XOR/AND rewrite rules, "
+         "removal of unused gates, final renumbering) evaluates - with the checked SSA evaluator - to the literal, unsimplified "
+         "values of the requests. The model is a line-by-line transliteration tied to circuit.rs by an exact structural "
+         "correspondence (identical gate lists and circuits) on exhaustive short and random rule-directed sequences through the "
+         "verif_hooks wrapper, plus all-assignment evaluation against an independent literal oracle.",
+    design_ref="DESIGN.md §6 C04",
+    note="trusted: Lean kernel; axioms propext/Classical.choice/Quot.sound; Model/Builder.lean + Model/Requests.lean as model of "
+         "circuit.rs:415-1062 (tied by structural correspondence, not by proof); the mark phase is modelled as a backward sweep "
+         "(same reachable set as the Rust stack loop); program-level on/off comparison is differential testing on the corpus",
+    technique="Lean 4 proof (builder invariant WF, per-rule post-conditions, compaction/renumbering simulation) + structural correspondence",
+)
+
 NOT_YET = "not claimed yet: model/proof for this property is still being built in this session (see DESIGN.md §10 order of work)"
 
 
